@@ -439,8 +439,13 @@ class Session:
             "files": observe.digest(files),
         }
         if op.get("envelope") or ev["i"] in self.want_full:
-            ev["stdout"] = out if len(out) < 400000 else out[:400000]
-            ev["files"] = [[r, c if len(c) < 400000 else c[:400000]] for r, c in files]
+            # never cut a document the oracle parses: a shortened JSON text is not JSON (above the
+            # cap the item is dropped and counted, not truncated)
+            cap = 32 * 1024 * 1024
+            ev["stdout"] = out if len(out) < cap else ""
+            ev["files"] = [[r, c] for r, c in files if len(c) < cap]
+            if len(out) >= cap or any(len(c) >= cap for _r, c in files):
+                ev["oversize_output_dropped"] = True
 
     def op_printer(self, op: Dict[str, Any], ev: Dict[str, Any]) -> None:
         from tealer.utils.command_line.common import init_tealer_from_single_contract
